@@ -428,13 +428,22 @@ class Case:
         names = [n for n in names if n in self.obj]
         objs = [self.obj[n] for n in names]
         env.records = []
+        self.rendererr = ""
         try:
             if via == "show":
-                if self.cls == "Markers":
-                    real = [self.obj["x"]]
-                    env.magpy.show(*real, markers=[(0, 0, 0)], backend="plotly", return_fig=True, **kwargs)
-                else:
-                    env.magpy.show(*objs, backend="plotly", return_fig=True, **kwargs)
+                try:
+                    if self.cls == "Markers":
+                        env.magpy.show(self.obj["x"], markers=[(0, 0, 0)], backend="plotly", return_fig=True, **kwargs)
+                    else:
+                        env.magpy.show(*objs, backend="plotly", return_fig=True, **kwargs)
+                except Exception as ex:  # pylint: disable=broad-except
+                    # the styles of all objects were resolved and the drawing code failed afterwards (e.g. a leaf that is None
+                    # in every source): drawing is C19's subject, the resolved styles are what is observed here
+                    seen = [any(ob is o for ob, _ in env.records) or (self.cls == "Markers" and any(isinstance(ob, env.MagpyMarkers) for ob, _ in env.records))
+                            for o in objs]
+                    if not (env.records and all(seen)):
+                        raise
+                    self.rendererr = type(ex).__name__
             else:
                 sk = {k: v for k, v in kwargs.items() if k.startswith("style")}
                 sk = env.linearize(sk, separator="_")
@@ -462,6 +471,7 @@ class Case:
         path = base[:-1] + ["zzz"] if l == "bad" else base
         kwabs = {"l": NONE, "m": NONE}
         outcome, exc, res = "ok", "", {}
+        self.rendererr = ""
         try:
             if op == "SetObj":
                 self.set_obj(tgt, n, path, self.real(v, l), lazy=d.get("lazy", False))
@@ -506,7 +516,7 @@ class Case:
             vabs = self.vid(self.MT["v1"])
         ev = {"tid": self.tid, "op": op, "tgt": tgt, "src": d.get("src", ""), "l": l if op in ("SetObj", "SetDef") else "",
               "v": vabs, "kw": kwabs, "badname": bool(d.get("badname", False)), "notation": n or op.lower(), "via": d.get("via", ""),
-              "outcome": outcome, "exc": exc, "post": post, "res": res, "reserr": reserr}
+              "outcome": outcome, "exc": exc, "post": post, "res": res, "reserr": reserr, "rendererr": self.rendererr}
         self.tid += 1
         self.steps.append(ev)
         self.descr.append(d)
@@ -792,7 +802,7 @@ def run_task(args):
     """Worker: all sequences of one (class, leaf); writes one ndjson file; returns statistics."""
     idx, cls, leaf, tier_, path = args
     seqs = sequences(cls, leaf, tier_, idx)
-    stats = {"cases": 0, "steps": 0, "ops": {}, "notations": {}, "def_leaves": set(), "real_shows": 0}
+    stats = {"cases": 0, "steps": 0, "ops": {}, "notations": {}, "def_leaves": set(), "real_shows": 0, "render_errors": 0}
     tid0 = idx * TID_STRIDE
     with open(path, "w") as f:
         for ci, (label, seq) in enumerate(seqs):
@@ -809,5 +819,7 @@ def run_task(args):
                     stats["def_leaves"].add(f"{s['tgt']}.{leaf}")
                 if s["via"] == "show":
                     stats["real_shows"] += 1
+                if s.get("rendererr"):
+                    stats["render_errors"] += 1
             f.write(json.dumps(ev, separators=(",", ":")) + "\n")
     return idx, cls, leaf, stats
